@@ -242,6 +242,36 @@ pub fn judge(c: &Case, st: &mut Stats) -> Verdict {
             format!("{} bytes, first difference at byte {}: {}...", built.len(), at, crate::engine::hex(&built[..built.len().min(40)])),
         );
     }
+    // the same addresses and TLVs with another transport and the other command, built right afterwards: nothing of the
+    // previous build may show (only bytes 12 and 13 differ)
+    if want.len() <= 4096 && fam != 0 {
+        let proto2 = (c.proto + 1) % 3;
+        let cmd2 = 1 - c.cmd;
+        let twin = crate::engine::guard(|| {
+            let mut b = Builder::with_addresses(0x20 | cmd2, bld::protocol_of(proto2), imp::mk_addr2(&c.addr));
+            for (k, v) in &list {
+                b = b.write_tlv(*k, v)?;
+            }
+            b.build()
+        });
+        let mut want2 = want.clone();
+        want2[12] = 0x20 | cmd2;
+        want2[13] = (want2[13] & 0xF0) | proto2;
+        match twin {
+            Ok(Ok(b2)) if b2 == want2 => {}
+            other => {
+                return fail(
+                    "wire-format-next-build",
+                    format!("the same header with command {} and transport {}: bytes 12..14 = {:02x} {:02x}", cmd2, proto2, want2[12], want2[13]),
+                    match other {
+                        Ok(Ok(b2)) => format!("bytes 12..14 = {:02x} {:02x}, {} bytes", b2[12], b2[13], b2.len()),
+                        Ok(Err(e)) => format!("Err({:?})", e.kind()),
+                        Err(p) => format!("panic: {}", p),
+                    },
+                )
+            }
+        }
+    }
     // parse back
     let parsed = imp::v2_parse(&built);
     let h = match &parsed {
